@@ -30,7 +30,7 @@ def run(ck, prop, sj, progs, tier):
         g = progcheck.gen_programs([progs[i] for i in idx], sp, vs)
         for (j, tag), r in g.items():
             gens[(idx[j], tag)] = r
-    cons = Consumers("c01", nbins=14)
+    cons = Consumers("c01", nbins=14, reader_route=True)   # C01 and C03 share the compiled crates
     case_of = {}
     gen_fail = 0
     for (i, tag), r in gens.items():
@@ -72,9 +72,14 @@ def run(ck, prop, sj, progs, tier):
             jobs.append({"id": jid, "case": cid, "kind": "resp", "input": pl})
             meta[jid] = (i, tag, vi, pl)
             if prop == "C01" and vi % 5 == 0:
-                jid2 = jid + "|s"
-                jobs.append({"id": jid2, "case": cid, "kind": "resp_str", "input": json.dumps(pl)})
-                meta[jid2] = (i, tag, vi, pl)
+                # the same payload as JSON text, through a reader, and as a fully \\u-escaped text
+                for sfx, kind, text in (("s", "resp_str", json.dumps(pl)), ("r", "resp_reader", json.dumps(pl)),
+                                        ("e", "resp_str", payload.escaped_text(pl))):
+                    if sfx != "s" and (vi // 5 + len(sfx) + ord(sfx)) % 2:
+                        continue
+                    jid2 = jid + "|" + sfx
+                    jobs.append({"id": jid2, "case": cid, "kind": kind, "input": text})
+                    meta[jid2] = (i, tag, vi, pl)
     for cid, (finding, w) in wit.items():
         jobs.append({"id": "witness|" + cid, "case": cid, "kind": "resp", "input": w["payload"]})
     obs = cons.run(jobs)
